@@ -38,6 +38,8 @@ static void rank_main (int rank, int size, void *varg)
   for (int rd = 0; rd < a->rounds; ++rd) {
     for (int i = 0; i < a->nvars; ++i) {
       item_t *it = &a->items[((size_t) rd * a->P + rank) * a->nvars + i];
+      /* a user who owns a copied name releases it before the name is set anew (sc_stats_init / set1 overwrite the pointer) */
+      if ((it->mode == 0 || it->mode == 1) && st[i].variable_owned != NULL) sc_stats_reset (&st[i], 1);
       if (it->mode == 0) { sc_stats_init (&st[i], "v"); for (int k = 0; k < it->n; ++k) sc_stats_accumulate (&st[i], it->v[k]); }
       else if (it->mode == 1) sc_stats_set1 (&st[i], it->v[0], "v");
       else if (it->mode == 3 || it->mode == 5) {
